@@ -10,7 +10,6 @@ CONSTANTS
   LossLo = 1
   LossHi = 5
   FinalClamp = TRUE
-  CloseWaits = TRUE
-INVARIANTS InBounds AbsOK Consistent Sub GetterOK ClosedErr NoPanic
-PROPERTIES NoPublishAfterClose WriteReturns CloseReturns AllDelivered
-
+  CloseWaits = FALSE
+INVARIANTS NoPanic
+PROPERTIES NoPublishAfterClose
